@@ -73,7 +73,7 @@ def obligations(tier):
         o["instrument"] = _PIN_NU
         o["desc"] = "union-free layout: calls %s on %s/%s then ANY call vs the reference model" % (list(pre), k0, k1)
         obs.append(o)
-    if tier != "quick":
+    if True:   # both tiers: every run prints the KNOWN-FINDING line for the recorded finding
         # known finding (predicate: a persistent signal event is added with a timeout): must still fail
         o = _ob("K_IO", "K_SIG_P", 2, prefix=(13, 25))
         o.update(name="kf_sigtimeout", defines=o["defines"] + ["KF_ONLY_sigtimeout"], known_finding="KF-C02-signal-timeout-drops-persistent-signal",
